@@ -639,7 +639,8 @@ class Effects:
             elif isinstance(t, ast.Name):
                 al = self.alias2(fi, t, st)[0]
                 if record and al and not _immutable_rhs(a.value) and \
-                        not self._returns_immutable(fi, a.value):
+                        not self._returns_immutable(fi, a.value) and \
+                        not self._immutable_local(fi, a.value):
                     self._record(fi, a, 'augmented assignment', norm_src(t), al)
                 v = self.alias2(fi, a.value, st)
                 if t.id in st:
@@ -708,6 +709,38 @@ class Effects:
                 if isinstance(n, ast.Return)]
         return bool(rets) and all(
             r is not None and _immutable_rhs(r) for r in rets)
+
+    def _immutable_local(self, fi, e):
+        """A local name every binding of which, in this function, is of an
+        immutable form (`p = x,`; `p = tuple(...)`): `y += p` re-binds y."""
+        if not isinstance(e, ast.Name) or e.id in fi.all_params:
+            return False
+        binds, other = [], False
+        for n in own_nodes(fi):
+            if isinstance(n, ast.Assign):
+                for t in n.targets:
+                    if isinstance(t, ast.Name) and t.id == e.id:
+                        binds.append(n.value)
+                    elif any(isinstance(x, ast.Name) and x.id == e.id
+                             for x in ast.walk(t) if isinstance(
+                                 getattr(x, 'ctx', None), ast.Store)):
+                        other = True
+            elif isinstance(n, ast.Name) and n.id == e.id and isinstance(
+                    n.ctx, (ast.Store, ast.Del)):
+                pass
+            elif isinstance(n, (ast.For, ast.AugAssign, ast.With,
+                                ast.NamedExpr, ast.comprehension)):
+                t = getattr(n, 'target', None)
+                ts = [t] if t is not None else [
+                    i.optional_vars for i in getattr(n, 'items', [])
+                    if i.optional_vars is not None]
+                for t in ts:
+                    if any(isinstance(x, ast.Name) and x.id == e.id
+                           for x in ast.walk(t)):
+                        other = True
+        return bool(binds) and not other and all(
+            _immutable_rhs(v) or self._returns_immutable(fi, v)
+            for v in binds)
 
     def _call_tuple(self, fi, e, state, n):
         """Per-position alias pairs of a call returning an n-tuple literal."""
